@@ -22,7 +22,14 @@ var (
 )
 
 // LoadTape sets the tape explicitly (used by replay tests).
-func LoadTape(t []uint64) { tape = t; tapePos = 0; loaded = true; Failures = nil; Notes = nil }
+func LoadTape(t []uint64) {
+	tape = t
+	tapePos = 0
+	loaded = true
+	Failures = nil
+	Notes = nil
+	frozen = nil
+}
 
 func load() {
 	if loaded {
@@ -129,14 +136,109 @@ func Conc(s string) string                 { return s }
 func ConcInt(n int) int                    { return n }
 func PoolGC()                              {}
 func MapOrderReverse(bool)                 {}
-func Freeze(v any, what string)            {}
-func Unfreeze()                            {}
+type frozenRec struct {
+	v    any
+	what string
+	dump string
+}
+
+var frozen []frozenRec
+
+// Freeze: from now until Unfreeze nothing reachable from v may be written.
+// (engine: write monitor; native: deep snapshot compared at Unfreeze.)
+func Freeze(v any, what string) { frozen = append(frozen, frozenRec{v, what, Dump(v)}) }
+
+func Unfreeze() {
+	for _, f := range frozen {
+		if now := Dump(f.v); now != f.dump {
+			id := f.what
+			if k := strings.IndexByte(id, ' '); k > 0 {
+				id = id[:k]
+			}
+			Failures = append(Failures, id+": "+f.what+" changed from "+f.dump+" to "+now)
+		}
+	}
+	frozen = nil
+}
 func Engine() bool                         { return false }
 func WatchReentry(fn, field, id string)    {}
 func Steps() int                           { return 0 }
 
-// DeepEqual is structural equality following pointers.
-func DeepEqual(a, b any) bool { return reflect.DeepEqual(a, b) }
+// DeepEqual is structural equality following pointers; nil and empty slices / maps are
+// equal and capacity is ignored (same relation as the engine's).
+func DeepEqual(a, b any) bool {
+	type pair struct{ x, y uintptr }
+	seen := map[pair]bool{}
+	var eq func(x, y reflect.Value) bool
+	eq = func(x, y reflect.Value) bool {
+		if !x.IsValid() || !y.IsValid() {
+			return x.IsValid() == y.IsValid()
+		}
+		if x.Type() != y.Type() {
+			return false
+		}
+		switch x.Kind() {
+		case reflect.Interface:
+			if x.IsNil() || y.IsNil() {
+				return x.IsNil() == y.IsNil()
+			}
+			return eq(x.Elem(), y.Elem())
+		case reflect.Ptr:
+			if x.IsNil() || y.IsNil() {
+				return x.IsNil() == y.IsNil()
+			}
+			k := pair{x.Pointer(), y.Pointer()}
+			if k.x == k.y || seen[k] {
+				return true
+			}
+			seen[k] = true
+			return eq(x.Elem(), y.Elem())
+		case reflect.Struct:
+			for i := 0; i < x.NumField(); i++ {
+				if !eq(x.Field(i), y.Field(i)) {
+					return false
+				}
+			}
+			return true
+		case reflect.Slice, reflect.Array:
+			if x.Len() != y.Len() {
+				return false
+			}
+			for i := 0; i < x.Len(); i++ {
+				if !eq(x.Index(i), y.Index(i)) {
+					return false
+				}
+			}
+			return true
+		case reflect.Map:
+			if x.Len() != y.Len() {
+				return false
+			}
+			it := x.MapRange()
+			for it.Next() {
+				v := y.MapIndex(it.Key())
+				if !v.IsValid() || !eq(it.Value(), v) {
+					return false
+				}
+			}
+			return true
+		case reflect.Func:
+			return x.IsNil() == y.IsNil()
+		case reflect.Bool:
+			return x.Bool() == y.Bool()
+		case reflect.Int, reflect.Int8, reflect.Int16, reflect.Int32, reflect.Int64:
+			return x.Int() == y.Int()
+		case reflect.Uint, reflect.Uint8, reflect.Uint16, reflect.Uint32, reflect.Uint64, reflect.Uintptr:
+			return x.Uint() == y.Uint()
+		case reflect.Float32, reflect.Float64:
+			return x.Float() == y.Float()
+		case reflect.String:
+			return x.String() == y.String()
+		}
+		return true
+	}
+	return eq(reflect.ValueOf(a), reflect.ValueOf(b))
+}
 
 func SameObject(a, b any) bool {
 	va, vb := reflect.ValueOf(a), reflect.ValueOf(b)
@@ -162,9 +264,89 @@ func IsNilPtr(a any) bool {
 func Reach(root any, ifaceName string) []any { return nil }
 
 // Fill fills *p with arbitrary content, same tape order as the engine.
-func Fill(p any, depth int) {
+func Fill(p any, depth int, sentinel ...any) {
 	v := reflect.ValueOf(p).Elem()
+	fillSentinel = reflect.Value{}
+	if len(sentinel) > 0 && sentinel[0] != nil {
+		fillSentinel = reflect.ValueOf(sentinel[0])
+	}
 	v.Set(gen(v.Type(), depth))
+}
+
+var fillSentinel reflect.Value
+
+func setField(f reflect.Value, g reflect.Value) {
+	if f.CanSet() {
+		f.Set(g)
+	} else {
+		reflect.NewAt(f.Type(), f.Addr().UnsafePointer()).Elem().Set(g)
+	}
+}
+
+func genFull(t reflect.Type, d int) reflect.Value {
+	out := reflect.New(t).Elem()
+	switch t.Kind() {
+	case reflect.Bool:
+		out.SetBool(next()&1 != 0)
+	case reflect.Int, reflect.Int8, reflect.Int16, reflect.Int32, reflect.Int64:
+		out.SetInt(int64(next()))
+	case reflect.Uint, reflect.Uint8, reflect.Uint16, reflect.Uint32, reflect.Uint64, reflect.Uintptr:
+		out.SetUint(next())
+	case reflect.String:
+		out.SetString(string([]byte{byte(next())}))
+	case reflect.Ptr:
+		if d > 0 {
+			p := reflect.New(t.Elem())
+			p.Elem().Set(genFull(t.Elem(), d-1))
+			out.Set(p)
+		}
+	case reflect.Struct:
+		for k := 0; k < t.NumField(); k++ {
+			setField(out.Field(k), genFull(t.Field(k).Type, d))
+		}
+	case reflect.Slice:
+		if d > 0 {
+			s := reflect.MakeSlice(t, 1, 1)
+			s.Index(0).Set(genFull(t.Elem(), d-1))
+			out.Set(s)
+		}
+	case reflect.Array:
+		for k := 0; k < t.Len(); k++ {
+			out.Index(k).Set(genFull(t.Elem(), d))
+		}
+	case reflect.Interface:
+		if fillSentinel.IsValid() && fillSentinel.Type().Implements(t) {
+			out.Set(fillSentinel)
+		}
+	case reflect.Map:
+		out.Set(reflect.MakeMap(t))
+	}
+	return out
+}
+
+// FillAll gives every field of *p non-zero content (same tape order as the engine).
+func FillAll(p any, sentinel any) {
+	fillSentinel = reflect.Value{}
+	if sentinel != nil {
+		fillSentinel = reflect.ValueOf(sentinel)
+	}
+	v := reflect.ValueOf(p).Elem()
+	v.Set(genFull(v.Type(), 2))
+}
+
+// FillOne fills exactly one top-level field of *p (symbolic choice) and returns its index.
+func FillOne(p any, sentinel any) int {
+	fillSentinel = reflect.Value{}
+	if sentinel != nil {
+		fillSentinel = reflect.ValueOf(sentinel)
+	}
+	v := reflect.ValueOf(p).Elem()
+	if v.Kind() != reflect.Struct || v.NumField() == 0 {
+		return -1
+	}
+	k := int(uint16(next()))
+	setField(v.Field(k), genFull(v.Type().Field(k).Type, 2))
+	return k
 }
 
 func choice(n int) int { return int(uint16(next())) }
@@ -207,6 +389,14 @@ func gen(t reflect.Type, d int) reflect.Value {
 	case reflect.Array:
 		for k := 0; k < t.Len(); k++ {
 			out.Index(k).Set(gen(t.Elem(), d))
+		}
+	case reflect.Interface:
+		if fillSentinel.IsValid() && fillSentinel.Type().Implements(t) && choice(2) == 1 {
+			out.Set(fillSentinel)
+		}
+	case reflect.Map:
+		if d > 0 && choice(2) != 0 {
+			out.Set(reflect.MakeMap(t))
 		}
 	}
 	return out
